@@ -146,6 +146,34 @@ func (d *badgerNodeDB) cleanMultipartLocked(removeNodes bool) error {
 		}
 	}
 
+	if removeNodes {
+		// The node log is not maintained for this backend, so remove everything that the aborted
+		// restore may have inserted into the (never finalized) multipart version: its nodes and
+		// its root nodes. Otherwise a restarted restore would merge with the leftovers.
+		if err := func() error {
+			rtx := d.db.NewTransactionAt(versionToTs(version), false)
+			defer rtx.Discard()
+
+			prefixes := [][]byte{rootNodeKeyFmt.Encode(version)}
+			for _, rootType := range api.RootTypes() {
+				prefixes = append(prefixes, finalizedNodeKeyFmt.Encode(byte(rootType), encodeVersionKey(version)))
+			}
+			for _, prefix := range prefixes {
+				rit := rtx.NewIterator(badger.IteratorOptions{Prefix: prefix})
+				for rit.Rewind(); rit.Valid(); rit.Next() {
+					if err := batch.Delete(rit.Item().KeyCopy(nil)); err != nil {
+						rit.Close()
+						return err
+					}
+				}
+				rit.Close()
+			}
+			return nil
+		}(); err != nil {
+			return err
+		}
+	}
+
 	// Flush batch first. If anything fails, having corrupt multipart info in d.meta shouldn't hurt
 	// us next run.
 	if err := batch.Flush(); err != nil {
@@ -155,6 +183,12 @@ func (d *badgerNodeDB) cleanMultipartLocked(removeNodes bool) error {
 
 	metaTx := d.db.NewTransactionAt(tsMetadata, true)
 	defer metaTx.Discard()
+	if removeNodes {
+		// The restore was aborted and everything it inserted has been removed. Multipart
+		// inserts only work with sequence number zero (chunk batches do not record which nodes
+		// to copy on finalization), so a restarted restore must start from zero again.
+		d.meta.releaseRootSeqNos(version)
+	}
 	d.meta.setMultipart(0, nil)
 	d.meta.commit(metaTx)
 	verifhook.At("pathbadger.cleanMultipart.afterMetaCommit")
